@@ -1,0 +1,82 @@
+//go:build verif
+
+// Contracts for package splitcarfetcher (comment-only; read by /verif/vcgo, build tag verif).
+package splitcarfetcher
+
+// psum(s, i) = s[0] + ... + s[i-1] as a mathematical integer (no wrap).
+//@ spec func psum(s []int64, i int) int = ite(i <= 0, 0, psum(s, i-1) + int(s[i-1]))
+
+//@ func min
+//@   mode int
+//@   ensures result == ite(a < b, a, b)
+//@   ensures result <= a && result <= b
+
+//@ func max
+//@   mode int
+//@   ensures result == ite(a > b, a, b)
+//@   ensures result >= a && result >= b
+
+// NewMultiReaderAt: offsets[i] == sizes[0]+...+sizes[i-1] provided no prefix sum overflows int64 (precondition); with
+// non-negative sizes, matching readers and at least one piece the result satisfies ReadAt's precondition validMRA.
+// (len(readers) == len(sizes) is not checked by the code: a shorter readers slice makes ReadAt index out of range.)
+//@ spec func nonneg(s []int64) bool = forall k int :: 0 <= k && k < len(s) ==> s[k] >= 0
+
+//@ func NewMultiReaderAt
+//@   mode int
+//@   requires forall k int :: 0 <= k && k <= len(sizes) ==> 0 <= psum(sizes, k) && psum(sizes, k) <= 9223372036854775807
+//@   ensures result != nil && fresh(result) && fresh(result.offsets)
+//@   ensures result.readers == readers && len(result.offsets) == len(sizes)
+//@   ensures forall k int :: 0 <= k && k < len(sizes) ==> int(result.offsets[k]) == psum(sizes, k)
+//@   ensures len(sizes) > 0 ==> result.offsets[0] == 0
+//@   ensures forall k int :: 0 <= k && k+1 < len(sizes) ==> int(result.offsets[k+1]) == int(result.offsets[k]) + int(sizes[k])
+//@   ensures nonneg(sizes) ==> forall a int :: 0 <= a && a < len(sizes) ==> 0 <= result.offsets[a] && result.offsets[a] <= result.offsets[len(sizes)-1]
+//@   ensures nonneg(sizes) ==> forall a, b int :: 0 <= a && a <= b && b < len(sizes) ==> result.offsets[a] <= result.offsets[b]
+//@   ensures nonneg(sizes) && len(sizes) >= 1 && len(readers) == len(sizes) && (forall a int :: 0 <= a && a < len(readers) ==> readers[a] != nil && fsize(readers[a]) >= 0) ==> validMRA(result)
+//@   use forall k int :: unfold(psum(sizes, k))
+//@   loop 0 invariant 0 <= rangeidx0 && rangeidx0 <= len(sizes) && len(offsets) == len(sizes) && fresh(offsets)
+//@   loop 0 invariant int(total) == psum(sizes, rangeidx0)
+//@   loop 0 invariant forall k int :: 0 <= k && k < rangeidx0 ==> int(offsets[k]) == psum(sizes, k)
+//@   loop 0 invariant nonneg(sizes) ==> total >= 0 && (forall a int :: 0 <= a && a < rangeidx0 ==> 0 <= offsets[a] && offsets[a] <= total)
+//@   loop 0 invariant nonneg(sizes) ==> forall a, b int :: 0 <= a && a <= b && b < rangeidx0 ==> offsets[a] <= offsets[b]
+//@   loop 0 use unfold(psum(sizes, rangeidx0+1)) && unfold(psum(sizes, 0))
+
+// ---- (*MultiReaderAt).ReadAt ----
+// Ghost files: fsize(r), fbyte(r, k) = size and content of the file behind an io.ReaderAt r.
+// The concatenation is defined through the offsets table: catAt(m, x, i) is byte x of the whole, looked for from piece i
+// on; it lies in the first piece whose end (= the next piece's offset) is beyond x, the last piece being open-ended.
+// cat(x) = catAt(m, x, 0). Zero-length pieces are skipped by the definition.
+//@ spec func catAt(m *MultiReaderAt, x int, i int) byte = ite(i+1 >= len(m.offsets) || x < int(m.offsets[i+1]), fbyte(m.readers[i], x - int(m.offsets[i])), catAt(m, x, i+1))
+
+//@ spec func validMRA(m *MultiReaderAt) bool = len(m.offsets) >= 1 && len(m.readers) == len(m.offsets) && m.offsets[0] == 0 && (forall a int :: 0 <= a && a < len(m.offsets) ==> 0 <= m.offsets[a] && m.offsets[a] <= m.offsets[len(m.offsets)-1]) && (forall a, b int :: 0 <= a && a <= b && b < len(m.offsets) ==> m.offsets[a] <= m.offsets[b]) && (forall a int :: 0 <= a && a < len(m.readers) ==> m.readers[a] != nil && fsize(m.readers[a]) >= 0)
+
+// Proved (C16): the bytes delivered are the concatenation; no byte beyond the true end; io.EOF only out of the last piece;
+// a short read without error can only stop strictly before the last piece's offset, i.e. inside a piece whose reader
+// ended before the size the offsets table declares for it.
+// NOT proved, expected (C13, last ensures): `err == nil ==> totalN == len(p)`. A piece shorter than declared answers
+// (n < toRead, io.EOF); EOF of a non-last piece is swallowed, off is not advanced, every later piece is skipped and the
+// function returns (totalN < len(p), nil). Concrete run: readers "AB","CDEF", sizes {4,4}, ReadAt(make([]byte,8), 0) = (2, nil).
+// vcgo's io.ReaderAt model has no "EOF only at the end of the file" clause, so this clause fails with and without the
+// C16 size precondition fsize(readers[i]) == offsets[i+1]-offsets[i]; the size precondition is therefore not stated.
+// `int(off)+len(p) <= MaxInt64`: otherwise toRead is clipped by MaxInt64-off in the last piece.
+//@ func (*MultiReaderAt) ReadAt
+//@   mode int
+//@   requires validMRA(m) && off >= 0 && int(off) + len(p) <= 9223372036854775807
+//@   modifies p
+//@   ensures 0 <= totalN && totalN <= len(p)
+//@   ensures forall j int :: 0 <= j && j < totalN ==> p[j] == catAt(m, int(off)+j, 0)
+//@   ensures totalN > 0 ==> int(off) + totalN <= int(m.offsets[len(m.offsets)-1]) + fsize(m.readers[len(m.offsets)-1])
+//@   ensures err == io.EOF ==> totalN < len(p) && int(off) + totalN >= int(m.offsets[len(m.offsets)-1])
+//@   ensures err == nil && totalN < len(p) ==> len(m.offsets) >= 2 && int(off) + totalN < int(m.offsets[len(m.offsets)-1])
+//@   ensures err == nil ==> totalN == len(p)
+//@   loop 0 invariant 0 <= rangeidx0 && rangeidx0 <= len(m.offsets)
+//@   loop 0 invariant fsize(m.readers[len(m.offsets)-1]) >= 0 && (forall t int :: 0 <= t && t < len(m.offsets) ==> 0 <= m.offsets[t] && m.offsets[t] <= m.offsets[len(m.offsets)-1])
+//@   loop 0 invariant bufOffset == totalN && remaining == len(p) - totalN && 0 <= totalN && totalN <= len(p) && 0 <= remaining && remaining <= len(p) && len(p) <= 72057594037927936 && totalN <= 72057594037927936 && remaining <= 72057594037927936
+//@   loop 0 invariant forall j int :: 0 <= j && j < totalN ==> p[j] == catAt(m, int(old(off))+j, 0)
+//@   loop 0 invariant totalN > 0 ==> int(old(off)) + totalN <= int(m.offsets[len(m.offsets)-1]) + fsize(m.readers[len(m.offsets)-1])
+//@   loop 0 invariant 0 <= int(off) && int(off) <= int(old(off)) + totalN && int(off) + remaining <= 9223372036854775807
+//@   loop 0 invariant (reachedEnd ==> rangeidx0 == len(m.offsets) && remaining > 0 && m.offsets[len(m.offsets)-1] <= off)
+//@   loop 0 invariant rangeidx0 < len(m.offsets) && m.offsets[rangeidx0] <= off ==> int(off) == int(old(off)) + totalN
+//@   loop 0 invariant rangeidx0 < len(m.offsets) && m.offsets[rangeidx0] <= off ==> forall x int :: x >= int(off) ==> catAt(m, x, 0) == catAt(m, x, rangeidx0)
+//@   loop 0 invariant !(rangeidx0 < len(m.offsets) && m.offsets[rangeidx0] <= off) ==> remaining > 0 && (forall t int :: rangeidx0 <= t && t < len(m.offsets) ==> off < m.offsets[t])
+//@   loop 0 invariant !(rangeidx0 < len(m.offsets) && m.offsets[rangeidx0] <= off) && !reachedEnd ==> len(m.offsets) >= 2 && int(old(off)) + totalN < int(m.offsets[len(m.offsets)-1])
+//@   loop 0 use forall x int :: unfold(catAt(m, x, rangeidx0))
